@@ -38,12 +38,12 @@ def sg_accept_kinds(ki, func, arg, env, cls):
 
 def run(ctx):
     repo = ctx.repo
-    handlers(ctx)
+    ctx.guard(handlers, ctx)
     ki = kindrules.infer(repo, SG, sg_accept_kinds, None, True)
-    kindrules.kinds_rule(ctx, 'C05-KINDS', SG, 140, ki)
-    chain_rule(ctx)
-    roles(ctx)
-    literals(ctx)
+    ctx.guard(kindrules.kinds_rule, ctx, 'C05-KINDS', SG, 140, ki)
+    ctx.guard(chain_rule, ctx)
+    ctx.guard(roles, ctx)
+    ctx.guard(literals, ctx)
     if ctx.thorough():
         try:
             from . import sentential
@@ -373,6 +373,29 @@ def literals(ctx):
         ok = pm.contains(wpat, wf) and pm.contains(rpat, rf)
         r.check(ok, what, rf, construct=rq, key='pair ' + what,
                 msg='encoding pair broken (%s): %s must contain `%s` and %s must contain `%s`' % (what, wq, wpat, rq, rpat))
+    # elif clauses have no succession association: they are ordered by (line, column) of their statement
+    f = repo.func(tg + '.accept_ACT_IF')
+    keys = [n for n in ast.walk(f) if isinstance(n, ast.Lambda) and isinstance(n.body, ast.Tuple)]
+    ok = len(keys) == 1 and [src(e).split('.')[-1] for e in keys[0].body.elts] == ['LineNumber', 'StartPosition'] and \
+        pm.contains('sorted(many(inst).ACT_EL[682](), key=by_position)', f)
+    r.check(ok, 'elif clauses are emitted ordered by (LineNumber, StartPosition)', f, construct=tg + '.accept_ACT_IF', key='elif-order',
+            msg='accept_ACT_IF does not sort the ACT_EL clauses by the key (LineNumber, StartPosition) in that order: clauses on different lines '
+                'may be emitted in the wrong order')
+    # named constants: looked up by group AND name, regenerated as group::name
+    f = repo.func(ap + '.accept_EnumOrNamedConstantNode')
+    ok = pm.contains("_G = self.any('CNST_CSP', where(InformalGroupName=node.namespace))", f)
+    gv = [pm.match("_G = self.any('CNST_CSP', where(InformalGroupName=node.namespace))", n) for n in ast.walk(f) if isinstance(n, ast.Assign)]
+    gv = [m['_G'].id for m in gv if m]
+    ok = ok and gv and pm.contains('_C = one(%s).CNST_SYC[1504](where(Name=node.name))' % gv[0], f)
+    g2 = repo.func(tg + '.accept_V_SCV')
+    ok2 = pm.contains("self.buf(cnst_csp.InformalGroupName, '::', cnst_syc.Name)", g2) and pm.contains('cnst_csp = one(cnst_syc).CNST_CSP[1504]()', g2)
+    r.check(bool(ok) and ok2, 'a named constant is resolved inside the group named by its namespace and regenerated as group::name', f,
+            construct=ap + '.accept_EnumOrNamedConstantNode', key='constant-group',
+            msg='Group::NAME is no longer resolved as the constant NAME of the group whose InformalGroupName is the written namespace (or not '
+                'regenerated from that group): with two groups defining the same name the wrong group is emitted')
+    ok = pm.contains("_E = one(s_dt).S_EDT[17].S_ENUM[27](where(name=node.name))", f) and pm.contains('s_dt = self.s_dt(node.namespace)', f)
+    r.check(ok, 'an enumerator is resolved inside the enumeration named by its namespace', f, construct=ap + '.accept_EnumOrNamedConstantNode', key='enum-type',
+            msg='Type::Enumerator is no longer resolved inside the data type named by the namespace')
     # statement separator and block structure
     f = repo.func(tg + '.accept_ACT_SMT')
     r.check(pm.match_canon(['self.accept(subtype(inst, 603))', "self.buf_linebreak(';')"], body_without_doc(f)) is not None,
